@@ -18,6 +18,12 @@ REG = {
          "Detection of bursts after the field and of 2-bit errors is currently decided by the correspondence run plus the proven linearity/injectivity lemmas (the closing theorems detect_burst32/detect_2bit are not yet in the development). Translator feeds the table; a changed table breaks table_correct and the check then searches with an oracle built from the last good table."),
  "C04": ("Lean 4 theorems for both backends: init equals its grammar-level specification on every byte string (accept_iff, error_classes), iteration with seek_to_next_block/read_current_block yields exactly the records of the grammar ending at end-of-data or a type-0 record (iteration_eq_records, any number of blocks), lookup returns the first record of the type with exactly its body or not-found (find_first_correct). Correspondence: generated files of 0..6 blocks, both versions, with/without checksum, every truncation, both routes.",
          "Descriptor route assumes regular-file read/lseek semantics. 'Accepted exactly when' is read including that the first record header is not cut (that is what the initialiser reads), see DESIGN.md 8.3."),
+ "C01": ("Lean 4 theorems (exact rational arithmetic): the literal transcription of sb_poly_make_bezier+sb_poly_eval equals the Bernstein-form Bezier curve for 1..8 control points; the offset-based segment decoder equals the list-structured format specification (chained control points, scale, yaw reduced to [0,360)); position_eq_spec: for every block with durations >= 1 ms and total < 2^32 ms and every non-NaN time, a fresh player's position is the specified curve point of the segment whose span contains t (clamping at 0, last end point beyond the end); duration_eq_sum: every duration query is the sum of segment durations. Correspondence: generated blocks over all encodings/scales/durations with boundary-biased times; acceptance tolerance is the Lean-defined float32 bound.",
+         "Theorems use secExact (ms/1000); the implementation's float32 rounding is bounded, not derived (tolPos). At-zero/at-end/joining corollaries are consequences of position_eq_spec + bezier_zero/bezier_one but are not yet stated as separate theorems. Statistics-interface duration is compared by the correspondence run."),
+ "C07": ("Lean 4 theorems against Mathlib's Polynomial: sb_poly_deriv is the formal derivative, sb_poly_scale the scalar multiple, and the cached first/second derivative polynomials the player evaluates are exactly d/dtau and d2/dtau2 of tau -> P((tau-T)/D) for every coefficient list (every degree), every axis and every duration with |D| > 1e-6 s; zero beyond the end; clamping before 0. Which segment is evaluated is given by C08.runQuery_spec. Correspondence: v/a queries interleaved with position queries in several orders (lazy caches), exact rational derivative within the float32 bound.",
+         "Float32 rounding bounded by tolVel/tolAcc (Sb/Corr/Traj.lean), which include a term relative to the coordinate magnitude (power-basis cancellation), i.e. are at least as permissive as the property's bound."),
+ "C08": ("Lean 4 theorems for every weakly monotone ms->s conversion (hence for the C float rounding): any history of position/velocity/acceleration/duration queries at non-NaN times keeps the cursor on the chain rewind,next,next,... up to coherent derivative caches (runHistory_inv); the answer at an instant that is not exactly a boundary equals a fresh player's answer (trajectory_answers_history_free); with positive durations the segment used at a boundary is the fresh one or its successor (trajectory_boundary_adjoining). Abstract cursor theory (cseek_lands, landing_history_free, landing_adjoining) shared with the yaw player. Correspondence: the implementation is compared with itself bit-for-bit (fresh player vs player after history) and with the model (segment index exactly) on all orderings of small probe sets and long random walks.",
+         "Hypothesis NoWrap (ms counters below 2^32) and MonoSec (monotone conversion; proven for exact division, assumed for IEEE float division by 1000.0f). The yaw-player instance of the abstract theorems is exercised by the correspondence run; its Lean instantiation is in progress."),
 }
 
 checks = []
